@@ -467,7 +467,7 @@ theorem gv_moveToEnded (p q : Pool) (t : Nat) (h : p.moveToEnded t = some q) : g
   · simp
   · simp only; split <;> simp
 
-@[simp] theorem gv_workerNext (p : Pool) (t : Nat) : gv (p.workerNext t) = gv p := by
+@[simp] theorem gv_workerNext (p : Pool) (t : Nat) (tk : PTask) : gv (p.workerNext t tk) = gv p := by
   unfold workerNext; simp
 
 @[simp] theorem gv_stepInWorker (p : Pool) (t : Nat) (tk : PTask) : gv (p.stepInWorker t tk) = gv p := by
